@@ -22,7 +22,7 @@ import (
 
 // tcase is one generated case (also the replay format).
 type tcase struct {
-	Kind    string // "v" validation, "n" normalisation, "p" the identity inside a party (party.go)
+	Kind    string // "v" validation, "n" normalisation, "p" the identity inside a party (party.go), "e" every entry point (entries.go)
 	CC      string // regime
 	Country string // identity country (normalisation)
 	Code    string
@@ -126,14 +126,28 @@ func Run(c *core.Ctx) int {
 	r := c.Rng
 	n := c.Pick(3000, 300000)
 	var cases []tcase
+	valids := map[string][]string{}
 	for _, rg := range rgs {
-		cases = append(cases, genRegime(r, rg, n)...)
+		cs, vs := genRegime(r, rg, n)
+		cases = append(cases, cs...)
+		valids[rg.CC] = vs
 	}
 	cases = append(cases, partyCases(r, cases, c.Pick(20, 400))...)
+	// degenerate and extremal number parts, completed by the specification (boundary.go),
+	// and every entry point on every spelling (entries.go)
+	patterns, degenerate, err := boundaryCodes(c, r, rgs)
+	if err != nil {
+		c.TieBroken("drive:C13/model", err.Error(), nil)
+		return c.Finish("", nil)
+	}
+	for _, rg := range rgs {
+		cases = append(cases, boundaryCases(c, r, rg, patterns[rg.CC], degenerate[rg.CC])...)
+		cases = append(cases, entryCases(c, r, rg, valids[rg.CC], degenerate[rg.CC])...)
+	}
 	return runCases(c, byCC, cases)
 }
 
-func genRegime(r *rand.Rand, rg *regime, n int) []tcase {
+func genRegime(r *rand.Rand, rg *regime, n int) ([]tcase, []string) {
 	var cases []tcase
 	v := func(code, stream string) {
 		cases = append(cases, tcase{Kind: "v", CC: rg.CC, Code: code, Stream: stream})
@@ -233,7 +247,7 @@ func genRegime(r *rand.Rand, rg *regime, n int) []tcase {
 			}
 		}
 	}
-	return cases
+	return cases, valids
 }
 
 type nres struct {
@@ -249,6 +263,7 @@ func runCases(c *core.Ctx, byCC map[string]*regime, cases []tcase) int {
 	vr := make([]vres, len(cases))
 	nr := make([]nres, len(cases))
 	pr := make([]pres, len(cases))
+	er := make([]*eres, len(cases)) // only the "e" cases have one
 	reqs := make([]string, len(cases))
 	for i, t := range cases {
 		if !utf8.ValidString(t.Code) {
@@ -274,6 +289,10 @@ func runCases(c *core.Ctx, byCC map[string]*regime, cases []tcase) int {
 		case "p":
 			pr[i] = goParty(t)
 			reqs[i] = "skip"
+		case "e":
+			o := goEntries(t)
+			er[i] = &o
+			reqs[i] = entryReq(t, o)
 		default:
 			reqs[i] = "skip"
 		}
@@ -290,6 +309,10 @@ func runCases(c *core.Ctx, byCC map[string]*regime, cases []tcase) int {
 		rg := byCC[t.CC]
 		if t.Kind == "p" && utf8.ValidString(t.Code) {
 			judgeParty(c, t, pr[i])
+			continue
+		}
+		if t.Kind == "e" && rg != nil && er[i] != nil && (reqs[i] != "skip" || er[i].Pan != "") {
+			judgeEntries(c, t, *er[i], resp[i])
 			continue
 		}
 		if rg == nil || reqs[i] == "skip" {
@@ -394,7 +417,7 @@ func runCases(c *core.Ctx, byCC map[string]*regime, cases []tcase) int {
 	if mxNonAlnum > 0 {
 		c.Note("MX: %d accepted RFCs contain `&` or `Ñ` (validation skips the generic `^[A-Z0-9]+$` gate for MX). The national RFC format allows these characters, so the C13 statement holds for them; the published JSON-schema pattern of tax.Identity.code admits them too (IdentityCodeSchemaPattern, checked by C11).", mxNonAlnum)
 	}
-	return c.Finish("per regime: codes valid by the published rule (check digits computed independently in the harness), every single-character substitution of such codes inside the positional alphabet plus length edits, random strings over the national alphabet with length of a national format +-1, special-remainder codes, and formatted variants (separators, lower case, country prefix, CH suffix) for the normalisation laws; the same identities as the tax_id of a party document and of the supplier and customer of an invoice, for every party $regime (absent, own, every other registered code), compared with the identity normalised and validated on its own (party.go); non-trivial = validation case in the national format (check-digit logic reached) or normalisation case that changes the text; distinct by regime+code",
+	return c.Finish("per regime: codes valid by the published rule (check digits computed independently in the harness), every single-character substitution of such codes inside the positional alphabet plus length edits, random strings over the national alphabet with length of a national format +-1, special-remainder codes, and formatted variants (separators, lower case, country prefix, CH suffix) for the normalisation laws; the same identities as the tax_id of a party document and of the supplier and customer of an invoice, for every party $regime (absent, own, every other registered code), compared with the identity normalised and validated on its own (party.go); degenerate and extremal number parts per format class (all positions lowest/highest, one position running through its class) with the control characters found by the specification among all one-position and adjacent two-digit completions, plus their single-character edits (boundary.go); every entry point (Identity.Normalize+Validate, tax.ParseIdentity, the regime validator, party Calculate/Normalize+Validate, envelope, supplier and customer of an invoice) on a complete spelling grid (compact/spaced/dotted/dashed/lower x no/one/two prefixes x national suffixes x routed countries), on truncated codes and on the degenerate codes, each held to the specification verdict on the normal form and to the same normal form (entries.go); non-trivial = validation case in the national format (check-digit logic reached) or normalisation case that changes the text; distinct by regime+code",
 		nil)
 }
 
